@@ -15,5 +15,7 @@ ASSUMPTIONS = ["CLN: status failed without warning_partial_completion means no p
 def run(F, X, rep):
     C = R.Ctx.get(F, X)
     P.d_dispatch(C, rep, "C16-D")
+    # the wrapper's failure verdicts are only as good as wait_payment's `none`
+    P.v_wait_payment(C, rep, "C16-W")
     if R.need_lc(C, rep, "C16-H"):
         E.k_key_is_invoice_hash(C, rep, "C16-H")
